@@ -56,12 +56,16 @@ def c02(h):
 # ------------------------------------------------------------------ C04
 def c04(h):
     m = mods(h)
-    gifts = 0
+    gifts = queued = 0      # gifts: what anybody handed to the pool's address outright (the theorem's op_nogift excludes them)
     for i, op, o in obs_list(h):
         if op.startswith("TX send:") and o.result == "ok":
             spec, f = parse_tx(op)
             if spec[2] == m["pool"]:
                 gifts += int(spec[3])
+        elif op.startswith("AW ") and op.split(" ")[1] == m["pool"]:
+            queued += int(op.split(" ")[2])      # an award to the pool's own address: minted at the next BeginBlock
+        elif op.startswith("BB ") and not o.abort:
+            gifts, queued = gifts + queued, 0
         bal = balances(o)
         staked = sum(t for (st, j, t, ut) in validators(o).values() if st != 0)
         if bal.get(m["pool"], 0) - gifts != staked:
@@ -229,7 +233,8 @@ def c07(h):
         dS = int(o.sec["S"]) - int(p.sec["S"])
         if dS != awards - burned:
             return i, "supply moved by %d at BeginBlock; awards %d, stake removed %d" % (dS, awards, burned), {"kind": "burn-not-exact"}
-        dpool = b1.get(m["pool"], 0) - b0.get(m["pool"], 0)
+        # (an award queued for the pool's own address is minted into it and stays there)
+        dpool = b1.get(m["pool"], 0) - b0.get(m["pool"], 0) - int(p.kv("W").get(m["pool"], 0))
         if dpool != -burned:
             return i, "staked pool moved by %d, stake removed %d" % (dpool, burned), {"kind": "burn-not-exact"}
     return None
@@ -566,6 +571,11 @@ def basic_ok(spec):
 
 
 # ------------------------------------------------------------------ C17
+def is_msg(op, kind):
+    """a governance message, inside a transaction or handed to the handler directly"""
+    return op.startswith("TX %s:" % kind) or op.startswith("HM %s:" % kind)
+
+
 def c17(h):
     m = mods(h)
     L = obs_list(h)
@@ -576,22 +586,22 @@ def c17(h):
         changed = [k for k in set(x0) | set(x1) if x0.get(k) != x1.get(k)]
         if changed:
             ok = False
-            if op.startswith("TX param:") and o.result == "ok":
+            if is_msg(op, "param") and o.result == "ok":
                 spec, f = parse_tx(op)
                 frm, key, raw = spec[1], spec[2], spec[-2]
                 owner = acl_owner(p, bytes.fromhex(key).decode())
                 ok = changed == [key] and owner == frm and x1.get(key) == raw
-            if op.startswith("TX upgrade:") and o.result == "ok":
+            if is_msg(op, "upgrade") and o.result == "ok":
                 spec, f = parse_tx(op)
                 ukey = b"gov/upgrade".hex()
                 ok = changed == [ukey] and acl_owner(p, "gov/upgrade") == spec[1] and x1.get(ukey) == spec[3]
             if not ok:
                 return i, "parameters %s changed by `%s`" % ([bytes.fromhex(k).decode() for k in changed], op[:100]), {"kind": "param-changed"}
-        if op.startswith("TX upgrade:") and o.result == "ok":
+        if is_msg(op, "upgrade") and o.result == "ok":
             spec, f = parse_tx(op)
             if acl_owner(p, "gov/upgrade") != spec[1]:
                 return i, "upgrade accepted from %s who does not own gov/upgrade" % spec[1], {"kind": "not-owner"}
-        if op.startswith("TX param:") and o.result == "ok":
+        if is_msg(op, "param") and o.result == "ok":
             spec, f = parse_tx(op)
             if acl_owner(p, bytes.fromhex(spec[2]).decode()) != spec[1]:
                 return i, "change-param accepted from %s who does not own %s" % (spec[1], bytes.fromhex(spec[2]).decode()), {"kind": "not-owner"}
@@ -600,7 +610,7 @@ def c17(h):
         d = b1.get(m["dao"], 0) - b0.get(m["dao"], 0)
         if d != 0:
             ok = False
-            if op.startswith("TX dao:") and o.result == "ok":
+            if is_msg(op, "dao") and o.result == "ok":
                 spec, f = parse_tx(op)
                 owner = param(p, "gov/daoOwner")
                 ok = owner is not None and owner.strip('"') == spec[1] and d == -int(spec[3]) and int(spec[3]) <= b0.get(m["dao"], 0)
